@@ -29,6 +29,17 @@ var specs = map[string]*propSpec{
 			{Name: "race", Flavour: "race", Env: []string{"GORACE=halt_on_error=1"}, Quick: 6000, Thorough: 150000, PerProc: 250, Progress: true, TimeoutS: 600},
 		},
 	},
+	"C09": {
+		ID:   "C09",
+		Rule: "one run = one history of 3-16 calls (Marshal, Unmarshal, Pretouch, PretouchMany with values and pointers, compile options MaxInlineDepth 1-3 / RecursiveDepth 0-3) by one client over a universe of 2-8 fresh dynamic types (thorough: occasionally 40-100) plus static types incl. pairs of distinct types that print identically (a/types.T vs b/types.T, function-local T's) and a recursive type; knobs and faults from the tape: program-cache capacities 2..4096 (rehash and probe wrap-around with a handful of types), permutation of every Go map iteration in the compile/batch-load paths, pool hit/miss decisions; every history is distinct by construction (fresh types), non-trivial = every run (each executes a generated history against process-global caches)",
+		Assume: []string{
+			"reference = encoding/json on the value subset of DESIGN Appendix B; a deviation is a violation only if the same single call with emptied caches (no history) agrees with the reference, otherwise it is counted as generator drift (C01/C03 material)",
+			"the loader's module list and JIT pages are never reset inside a process (they are part of the history on purpose)",
+		},
+		Batches: []batch{
+			{Name: "history", Flavour: "plain", Quick: 4000, Thorough: 200000, PerProc: 100, Progress: true, TimeoutS: 900},
+		},
+	},
 	"C08": {
 		ID:   "C08",
 		Rule: "one run = 1-4 fresh dynamic types (reflect.StructOf etc., never seen by the process: first-use compilation happens inside the run) + callback types that yield mid-encode/mid-decode, 2-6 clients x 1-6 API calls (Marshal, MarshalString, MarshalIndent, EncodeInto, Unmarshal, UnmarshalString, Valid, Get, Pretouch with compile options), several clients sharing one type, program-cache capacity 2..4096 and pool hit/miss/steal decisions from the tape, injected callback panics in a quarter of the runs; non-trivial = more context switches than clients; distinct = distinct trace hash",
